@@ -53,7 +53,7 @@ def is_effect(name):
     return bool(name and EFFECT_RE.search(name))
 
 
-SHAPE_ALLOW = {"eval::read_src # - # std::fs::read"}
+SHAPE_ALLOW = {"eval::read_src # - # std::fs::read", "eval::read_src # - # std::fs::metadata"}
 
 
 def builds_only_refusal(g):
